@@ -288,6 +288,7 @@ pub struct ClientConductor {
     time_of_last_do_work_ms: Moment,
     time_of_last_keepalive_ms: Moment,
     time_of_last_check_managed_resources_ms: Moment,
+    client_close_sent: bool,
 
     arced_self: Option<Arc<Mutex<ClientConductor>>>,
 
@@ -346,6 +347,7 @@ impl ClientConductor {
             time_of_last_do_work_ms: epoch_clock(),
             time_of_last_keepalive_ms: epoch_clock(),
             time_of_last_check_managed_resources_ms: epoch_clock(),
+            client_close_sent: false,
             arced_self: None,
             padding: [0; crate::utils::misc::CACHE_LINE_LENGTH as usize],
         };
@@ -1442,6 +1444,14 @@ impl ClientConductor {
     pub fn linger_all_resources(&mut self, now_ms: Moment, images: Vec<Image>) {
         self.linger_resource(now_ms, images);
     }
+
+    /// Tell the media driver that this client is going away (at most once).
+    fn send_client_close(&mut self) {
+        if !self.client_close_sent {
+            self.client_close_sent = true;
+            let _res = self.driver_proxy.client_close();
+        }
+    }
 }
 
 impl Agent for ClientConductor {
@@ -1467,6 +1477,10 @@ impl Agent for ClientConductor {
         if !self.is_closed.load(Ordering::SeqCst) {
             self.close_all_resources((self.epoch_clock)());
         }
+
+        // The conductor is kept alive by `arced_self` and by its listener adapter, so its Drop never runs:
+        // the close command has to be sent when the agent is closed.
+        self.send_client_close();
 
         Ok(())
     }
@@ -1970,7 +1984,7 @@ impl Drop for ClientConductor {
         for _img in &self.lingering_image_lists {
             // img.image_array.drop(); FIXME: check whether drop for Images is needed
         }
-        let _res = self.driver_proxy.client_close();
+        self.send_client_close();
     }
 }
 
